@@ -48,7 +48,9 @@ func (p Params) Validate() error {
 
 	entSigners := strings.Split(p.EntSigners, ",")
 
-	if len(entSigners) < int(p.MinAccepts) {
+	// compare as uint64: int(p.MinAccepts) is negative for values of 2^63 and above, which made
+	// any such MinAccepts pass this check
+	if uint64(len(entSigners)) < p.MinAccepts {
 		return fmt.Errorf("number of authorised accounts must be >= number of minimum accepts")
 	}
 
